@@ -31,6 +31,13 @@ def strip_generics(path):
 
     while i < n:
         c = path[i]
+        if c == '<' and path.startswith('<impl ', i):
+            # `mod::<impl Trait for Ty>::item` (impl blocks outside the type's module): keep as `{impl ...}`
+            j = skip_group(i)
+            inner = strip_generics(path[i + 1:j - 1])
+            out.append('{' + inner + '}')
+            i = j
+            continue
         if c == '<' and i > 0:
             if i >= 2 and path[i - 1] == ':' and path[i - 2] == ':':
                 del out[-2:]
